@@ -476,6 +476,9 @@ def run(ctx):
     from . import c10 as _c10
 
     ctx.attempt(_c10.stored_frame_rule, ctx)
+    from ..shared import element_system_thickness_rule as _thick
+
+    ctx.attempt(_thick, ctx, "R2.10", ["EasyFEA.Simulations._elastic.Elastic", "EasyFEA.Simulations._thermal.Thermal", "EasyFEA.Simulations._phasefield.PhaseField", "EasyFEA.Simulations._inelastic.InElastic", "EasyFEA.Simulations._weakforms.WeakForms"])
     ctx.attempt(_c10.fibre_derivative_rule, ctx)
     from ..shared import group_loop_leak_rule as _group_loop_leak_rule
 
